@@ -1,5 +1,6 @@
 import ShootVerif.Model.Opt
 import ShootVerif.Proofs.CtorMain
+import ShootVerif.Proofs.Alloc
 /-!
 C13 — with -opt every field gets an option function that sets exactly that field; SetDefault
 assigns each `def=` value; T.With(opts…) and shoot.NewWith(opts…) apply the defaults first and then
@@ -100,7 +101,25 @@ theorem C13_options_are_visible_leaves (t : Tree) :
 theorem C13_names (short : Bool) (ty f : String) :
     optName short ty f = if short then Transfer.pascalS f else Transfer.pascalS f ++ "Of" ++ ty := rfl
 
+/-- an option function for a field promoted through embedded pointer structs never dereferences a nil
+    pointer, whatever is allocated beforehand (in particular on `new(T)` inside shoot.NewWith): it
+    allocates exactly the embedded structs on the way (outermost first), keeps everything else, and then
+    writes the field -/
+theorem C13_option_no_panic (ptrs : List Alloc.Path) (h : Alloc.Heap) :
+    ∃ h', Alloc.writeField ptrs h = .ok h' ∧ (∀ q ∈ ptrs, q ∈ h') ∧ (∀ q, q ∈ h → q ∈ h') ∧
+      (∀ q, q ∈ h' → q ∈ h ∨ q ∈ ptrs) := by
+  obtain ⟨h', e, a, b, c⟩ := Alloc.allocAll_ok ptrs [] h (by simp)
+  refine ⟨h', ?_, by simpa using a, b, c⟩
+  unfold Alloc.writeField
+  rw [e]
+  have : ptrs.all (fun q => h'.contains q) = true := by
+    simp only [List.all_eq_true, List.contains_iff_mem]
+    intro q hq; simpa using a q (by simp [hq])
+  simp only [this, ↓reduceIte]
+
 /-! non-vacuity -/
+example : (match Alloc.writeField [["Base"], ["Base", "Inner", "Deep"]] [] with | .ok h => h == [["Base", "Inner", "Deep"], ["Base"]] | .panic => false) = true := by decide
+
 example : withM [("port", "8080")] [("port", .opt 0), ("host", .opt 1), ("port", .opt 2)] (fun _ => .init) "port" = .opt 2 := by decide
 example : withM [("port", "8080")] [("host", .opt 0)] (fun _ => .init) "port" = .defv "8080" := by decide
 
